@@ -1158,6 +1158,9 @@ func (o OnConflict) Children() []Node {
 			children = append(children, &update)
 		}
 	}
+	if o.Action.Where != nil {
+		children = append(children, o.Action.Where)
+	}
 	return children
 }
 
@@ -1271,6 +1274,10 @@ func (c CreateTableStatement) Children() []Node {
 	for _, p := range c.Partitions {
 		p := p // G601: Create local copy
 		children = append(children, &p)
+	}
+	for _, opt := range c.Options {
+		opt := opt // G601: Create local copy
+		children = append(children, &opt)
 	}
 	return children
 }
